@@ -1399,3 +1399,68 @@ package cache
 //@   ensures [C11.newtraitof.nonnil] result != nil
 //@   ensures [C11.newtraitof.janitor] hasJanitor(result.Trait) ==> calls("go:(*Trait).janitor") == 1 && arg("go:(*Trait).janitor", 1, 0) == result.Trait
 //@   replay janitorself
+
+// ---------------------------------------------------------------------------------------------------
+// Eviction (C12, part c): evictLeast collects (hash, rank) of every entry, sorts by rank and deletes the first
+// int(n * fraction) of them. Ghost: pos[h] is the index at which entry h was collected; after the sort its index
+// is sp(h) = sortInv(pos[h]). sp is a bijection between the entries and [0, n); exactly the entries with
+// sp(h) < result are deleted; ranks are ascending in sp. Sequential contract (no concurrent writers).
+// ---------------------------------------------------------------------------------------------------
+
+//@ def rankE(val) := isFunc(val, "(*shardedMap).evictMostExpired$1")
+//@ def sp(h) := sortInv(ghost(pos, h))
+//@ def hOf(j) := ghost(hof, sortPerm(j))
+//@ def nEnt() := ghost(nent, 0)
+//@ def collected(c, entries, h) := 0 <= ghost(pos, h) && ghost(pos, h) < len(entries) && entries[ghost(pos, h)].hash == h
+
+//@ func (*shardedMap).evictLeast
+//@   inline
+//@   loop 1 (range c.hashedBuckets) invariant [C12.ev.cnt] -1 <= rangeindex && rangeindex <= 127 && cnt >= 0 && cnt <= (rangeindex + 1) * 1099511627776
+//@   loop 2 (range c.hashedBuckets) invariant [C12.ev.o.bounds] -1 <= rangeindex && rangeindex <= 127 && len(entries) >= 0
+//@   loop 2 invariant [C12.ev.o.n] (rangeindex >= 0 || len(entries) == 0) && (rangeindex >= 0 ==> nEnt() == len(entries))
+//@   loop 2 ghost nent[0] := len(entries)
+//@   loop 2 invariant [C12.ev.o.sound] forall k int :: 0 <= k && k < len(entries) ==> hasH(c, entries[k].hash) && ghost(pos, entries[k].hash) == k
+//@   loop 2 invariant [C12.ev.o.where] forall k int :: 0 <= k && k < len(entries) ==> entries[k].hash % 128 <= rangeindex
+//@   loop 2 invariant [C12.ev.o.what] forall k int :: 0 <= k && k < len(entries) ==> ghost(hof, k) == entries[k].hash && entries[k].val == (rankE(val) ? ent(c, entries[k].hash).E : ent(c, entries[k].hash).C)
+//@   loop 2 invariant [C12.ev.o.complete] forall h uint64 :: hasH(c, h) && h % 128 <= rangeindex ==> collected(c, entries, h)
+//@   loop 2 invariant [C12.ev.o.kept] mapKept(c) && entriesKept()
+//@   loop 3 (range b.data; the value variable of this loop shadows the bucket index i: the bucket is rangeindex + 1) invariant [C12.ev.i.bounds] len(entries) >= 0 && -1 <= rangeindex && rangeindex < 127
+//@   loop 3 invariant [C12.ev.i.sound] forall k int :: 0 <= k && k < len(entries) ==> hasH(c, entries[k].hash) && ghost(pos, entries[k].hash) == k
+//@   loop 3 invariant [C12.ev.i.where] forall k int :: 0 <= k && k < len(entries) ==>
+//@       (entries[k].hash % 128 <= rangeindex || (entries[k].hash % 128 == rangeindex + 1 && visited(entries[k].hash)))
+//@   loop 3 invariant [C12.ev.i.what] forall k int :: 0 <= k && k < len(entries) ==> ghost(hof, k) == entries[k].hash && entries[k].val == (rankE(val) ? ent(c, entries[k].hash).E : ent(c, entries[k].hash).C)
+//@   loop 3 invariant [C12.ev.i.shard] forall h uint64 :: has(c.hashedBuckets[rangeindex + 1].data, h) ==> h % 128 == rangeindex + 1
+//@   loop 3 invariant [C12.ev.i.complete] forall h uint64 :: hasH(c, h) && (h % 128 <= rangeindex || (h % 128 == rangeindex + 1 && visited(h))) ==> collected(c, entries, h)
+//@   loop 3 invariant [C12.ev.i.kept] mapKept(c) && entriesKept()
+//@   loop 3 ghost pos[h] := len(entries) - 1
+//@   loop 3 ghost hof[len(entries) - 1] := h
+//@   loop 4 (the deletions) invariant [C12.ev.d.bounds] 0 <= i && i <= evictItems && evictItems <= len(entries) && len(entries) < 1125899906842624
+//@   loop 4 invariant [C12.ev.d.rank] forall h uint64 :: old(hasH(c, h)) ==> 0 <= sp(h) && sp(h) < len(entries) && entries[sp(h)].hash == h
+//@       && (hasH(c, h) <==> sp(h) >= i) && (hasH(c, h) ==> ent(c, h) == old(ent(c, h)))
+//@   loop 4 invariant [C12.ev.d.inverse] forall h uint64 :: forall j int :: 0 <= j && j < len(entries) && entries[j].hash == h ==> old(hasH(c, h)) && sp(h) == j
+//@   loop 4 invariant [C12.ev.d.onto] (forall j int :: 0 <= j && j < len(entries) ==> entries[j].hash == hOf(j)) && nEnt() == len(entries)
+//@   loop 4 invariant [C12.ev.d.val] forall h uint64 :: old(hasH(c, h)) ==> entries[sp(h)].val == (rankE(val) ? old(ent(c, h)).E : old(ent(c, h)).C)
+//@   loop 4 invariant [C12.ev.d.subset] (forall h uint64 :: hasH(c, h) ==> old(hasH(c, h))) && keysInShard(c) && entriesKept()
+
+//@ func (*shardedMap).evictMostExpired
+//@   props C12
+//@   requires repOK(c) && keysInShard(c) && evictFraction >= 0.0 && evictFraction <= 1.0
+//@   ensures [C12.evict.subset] (forall h uint64 :: hasH(c, h) ==> old(hasH(c, h)) && ent(c, h) == old(ent(c, h))) && entriesKept()
+//@   ensures [C12.evict.order] forall h1 uint64 :: forall h2 uint64 :: old(hasH(c, h1)) && !hasH(c, h1) && hasH(c, h2) ==> old(ent(c, h1)).E <= old(ent(c, h2)).E
+//@   ensures [C12.evict.rank] forall h uint64 :: old(hasH(c, h)) ==> 0 <= sp(h) && (hasH(c, h) <==> sp(h) >= result) && hOf(sp(h)) == h
+//@   ensures [C12.evict.onto] forall h uint64 :: forall j int :: 0 <= j && j < nEnt() && hOf(j) == h ==> old(hasH(c, h)) && sp(h) == j
+//@   ensures [C12.evict.count] result >= 0 && result <= nEnt()
+//@   ensures [C12.evict.amount] real(result) <= real(nEnt()) * evictFraction + real(nEnt()) * evictFraction / 2251799813685248.0
+//@       && real(result) + 1.0 > real(nEnt()) * evictFraction - real(nEnt()) * evictFraction / 2251799813685248.0
+
+
+//@ func (*shardedMap).evictLeastCounter
+//@   props C12
+//@   requires repOK(c) && keysInShard(c) && evictFraction >= 0.0 && evictFraction <= 1.0
+//@   ensures [C12.evict.subset] (forall h uint64 :: hasH(c, h) ==> old(hasH(c, h)) && ent(c, h) == old(ent(c, h))) && entriesKept()
+//@   ensures [C12.evict.order] forall h1 uint64 :: forall h2 uint64 :: old(hasH(c, h1)) && !hasH(c, h1) && hasH(c, h2) ==> old(ent(c, h1)).C <= old(ent(c, h2)).C
+//@   ensures [C12.evict.rank] forall h uint64 :: old(hasH(c, h)) ==> 0 <= sp(h) && (hasH(c, h) <==> sp(h) >= result) && hOf(sp(h)) == h
+//@   ensures [C12.evict.onto] forall h uint64 :: forall j int :: 0 <= j && j < nEnt() && hOf(j) == h ==> old(hasH(c, h)) && sp(h) == j
+//@   ensures [C12.evict.count] result >= 0 && result <= nEnt()
+//@   ensures [C12.evict.amount] real(result) <= real(nEnt()) * evictFraction + real(nEnt()) * evictFraction / 2251799813685248.0
+//@       && real(result) + 1.0 > real(nEnt()) * evictFraction - real(nEnt()) * evictFraction / 2251799813685248.0
